@@ -814,6 +814,15 @@ func (g *gen) universe(collide bool) {
 		g.vss = dedup(append(g.vss, ident{"a-b", "c"}, ident{"a", "b-c"}, ident{"a", "b.c"}))
 		g.tss = dedup(append(g.tss, ident{"a-b", "c"}, ident{"a", "b-c"}))
 	}
+	if r.Chance(1, 2) {
+		// a name and the same name with the file suffix: `x` and `x.conf` are different DNS-legal names and
+		// must not be confused by anything that appends or strips ".conf"
+		g.vss = dedup(append(g.vss, ident{"ns1", "x"}, ident{"ns1", "x.conf"}))
+		g.tss = dedup(append(g.tss, ident{"ns1", "x"}, ident{"ns1", "x.conf"}))
+		if cand := dedup(append(append([]ident{}, g.ings...), ident{"ns1", "x"}, ident{"ns1", "x.conf"})); injective(cand) {
+			g.ings = cand
+		}
+	}
 	if r.Chance(1, 2) && len(g.ings) > 0 {
 		// the same key as Ingress, VirtualServer and TransportServer
 		g.vss = dedup(append(g.vss, g.ings[0]))
